@@ -402,7 +402,9 @@ fn params_for(w: &World, actor: &str, name: &str, variant: u32) -> (Option<IpldB
         ("evm", "GetBytecode") | ("evm", "GetBytecodeHash") => none,
         ("evm", "GetStorageAt") => p(ser(&fil_actor_evm::GetStorageAtParams { storage_key: fil_actors_evm_shared::uints::U256::from(0u64) })),
         ("evm", "InvokeContractDelegate") => {
-            let dp = fil_actor_evm::DelegateCallParams { code: make_identity_cid(b""), input: vec![],
+            // delegate to the contract's own (stored) bytecode
+            let est: fil_actor_evm::State = get_state(&w.v, &w.targets["evm"]).unwrap();
+            let dp = fil_actor_evm::DelegateCallParams { code: est.bytecode, input: vec![],
                 caller: fil_actors_evm_shared::address::EthAddress([0xEE; 20]), value: zero.clone() };
             p(IpldBlock::serialize(DAG_CBOR, &dp).ok())
         }
@@ -799,6 +801,9 @@ fn main() {
     // per (actor, method): did some cell reach an accepted / a rejected classification
     let mut row_accept: BTreeMap<(String, u64), u64> = BTreeMap::new();
     let mut row_reject: BTreeMap<(String, u64), u64> = BTreeMap::new();
+    let mut row_ok: BTreeMap<(String, u64), u64> = BTreeMap::new();
+    let mut passed_ok = 0u64;
+    let mut later_errors: BTreeMap<String, u64> = BTreeMap::new();
 
     for (actor, variants) in &enums {
         let target = w.targets[actor];
@@ -891,6 +896,10 @@ fn main() {
                     }
                     cells_driven += 1;
                     if cl == Class::Passed { n_acc += 1; *row_accept.entry((actor.to_string(), *m)).or_insert(0) += 1; }
+                    if cl == Class::Passed && o.code == 0 { passed_ok += 1; *row_ok.entry((actor.to_string(), *m)).or_insert(0) += 1; }
+                    if cl == Class::Passed && o.code != 0 {
+                        *later_errors.entry(format!("{}.{}: {}", actor, name.unwrap_or("<undefined>"), o.code)).or_insert(0) += 1;
+                    }
                     if rejected { n_rej += 1; *row_reject.entry((actor.to_string(), *m)).or_insert(0) += 1; }
                     stats.op(&format!("call:{}", actor), if cl == Class::Passed { 0 } else { o.code });
                     steps.push((format!("Call {} {} {}", variant, m, rep.coq), vec![(cl as u32).to_string()]));
@@ -915,6 +924,17 @@ fn main() {
         }
     }
 
+    let mut rows_never_ok = vec![];
+    for (actor, variants) in &enums {
+        for (n, m) in variants {
+            if row_ok.get(&(actor.to_string(), *m)).copied().unwrap_or(0) == 0 {
+                rows_never_ok.push(format!("{}.{}", actor, n));
+            }
+        }
+    }
+    stats.extra.insert("accepted_and_completed_ok".into(), json!(passed_ok));
+    stats.extra.insert("rows_where_no_accepted_call_completed_ok".into(), json!(rows_never_ok));
+    stats.extra.insert("accepted_then_failed_later_by_method_and_code".into(), json!(later_errors));
     let n_methods: usize = per_actor_methods.values().sum();
     stats.extra.insert("exhaustive".into(), json!(true));
     stats.extra.insert("matrix".into(), json!({
